@@ -55,23 +55,24 @@ type pFail struct {
 	Msg    string `json:"msg"`
 }
 type pRet struct {
-	NilErr bool    `json:"nilerr"`
-	Etype  string  `json:"etype"`
-	Nerrs  int     `json:"nerrs"`
-	Verr   int     `json:"verr"` // len(p.errors) seen through the hook accessor
-	Errs   []pErr  `json:"errs"`
-	NilNode bool   `json:"nilnode"` // a single-node function returned nil / a list contains nil
-	Nnodes int     `json:"nnodes"`
-	Fk     string  `json:"fk"` // kind of p.Token after the call
-	Fkv    []int   `json:"fkv"`
-	Ftp    int     `json:"ftp"`
-	Fte    int     `json:"fte"`
-	Fc     int     `json:"fc"`
-	Bads   []pBad  `json:"bads"`
-	Fails  []pFail `json:"fails"` // C04: SQL/Pos/End/Walk calls that panicked
-	Ncalls int     `json:"ncalls"`
-	Nodes  [][]int `json:"nodes"` // C05 on error trees: [pos, end, parent (1-based, 0 none), exempt (children of CreateTable)] in reflective pre-order
+	NilErr  bool    `json:"nilerr"`
+	Etype   string  `json:"etype"`
+	Nerrs   int     `json:"nerrs"`
+	Verr    int     `json:"verr"` // len(p.errors) seen through the hook accessor
+	Errs    []pErr  `json:"errs"`
+	NilNode bool    `json:"nilnode"` // a single-node function returned nil / a list contains nil
+	Nnodes  int     `json:"nnodes"`
+	Fk      string  `json:"fk"` // kind of p.Token after the call
+	Fkv     []int   `json:"fkv"`
+	Ftp     int     `json:"ftp"`
+	Fte     int     `json:"fte"`
+	Fc      int     `json:"fc"`
+	Bads    []pBad  `json:"bads"`
+	Fails   []pFail `json:"fails"` // C04: SQL/Pos/End/Walk calls that panicked
+	Ncalls  int     `json:"ncalls"`
+	Nodes   [][]int `json:"nodes"` // C05 on error trees: [pos, end, parent (1-based, 0 none), exempt (children of CreateTable)] in reflective pre-order
 }
+
 // MarshalJSON writes an event as the array [ev, np, c, d, k, kv, tp, te, nc, a, b, n] (6x smaller than an object).
 func (e pEv) MarshalJSON() ([]byte, error) {
 	var b strings.Builder
@@ -198,7 +199,7 @@ func wrap(n ast.Node) ast.Node {
 
 type walkCounter struct{ n int }
 
-func (w *walkCounter) Visit(ast.Node) ast.Visitor      { w.n++; return w }
+func (w *walkCounter) Visit(ast.Node) ast.Visitor       { w.n++; return w }
 func (w *walkCounter) VisitMany([]ast.Node) ast.Visitor { return w }
 func (w *walkCounter) Field(string) ast.Visitor         { return w }
 func (w *walkCounter) Index(int) ast.Visitor            { return w }
@@ -379,7 +380,7 @@ func collectNodes(roots []ast.Node, ret *pRet) {
 	}
 }
 
-var flushOnHang func()     // flushes the record files before the watchdog exits (the main goroutine is stuck in the parse call)
+var flushOnHang func()      // flushes the record files before the watchdog exits (the main goroutine is stuck in the parse call)
 var watchStart atomic.Int64 // unix nanos of the running call, 0 if none
 var watchInfo atomic.Value  // string describing the running call
 
